@@ -44,18 +44,25 @@ SELECTORS = st.one_of(
 
 
 @st.composite
-def data_lines(draw, nfilt, k, logmodels, distance_mode):
+def data_lines(draw, nfilt, k, logmodels, distance_mode, dup_names=False):
     n = draw(st.integers(1, 12))
     out = []
     for i in range(n):
         s = draw(gen.sources(nfilt, k=k if draw(st.booleans()) else None, logmodels=logmodels, distance_mode=distance_mode,
                              name='src%02d' % i, ignored='positive'))
         out.append(s)
+    if dup_names and n >= 2 and draw(st.integers(0, 3)) == 0:
+        # catalogues list an object several times (several epochs, concatenated tables): lines sharing a name are still
+        # separate sources with their own photometry
+        for _ in range(draw(st.integers(1, 2))):
+            a = draw(st.integers(0, n - 2))
+            b = draw(st.integers(a + 1, n - 1))
+            out[b]['name'] = out[a]['name']
     return out
 
 
 @st.composite
-def fit_cases(draw, formats2=('v1', 'v1', 'v2wav'), formats3=('v1', 'v1', 'v2wav'), max_lines=12):
+def fit_cases(draw, formats2=('v1', 'v1', 'v2wav'), formats3=('v1', 'v1', 'v2wav'), max_lines=12, dup_names=False):
     mode = draw(st.sampled_from(['2d', '3d']))
     if mode == '2d':
         c = draw(gen.fit_case_2d(max_models=6, max_filters=5, max_sources=1, formats=formats2))
@@ -76,7 +83,7 @@ def fit_cases(draw, formats2=('v1', 'v1', 'v2wav'), formats3=('v1', 'v1', 'v2wav
     nf = len(c['filters'])
     k = of.extinction_pattern(c['law']['wav'], c['law']['chi'], [f['wav'] for f in c['filters']])
     c['mode'] = mode
-    c['lines'] = draw(data_lines(nf, k, logmodels, mode == '3d'))[:max_lines]
+    c['lines'] = draw(data_lines(nf, k, logmodels, mode == '3d', dup_names))[:max_lines]
     counts = sorted(set(sum(1 for f in s['flags'] if f in (1, 4)) for s in c['lines']))
     # n_data_min: at least one eligible source
     nmin = draw(st.integers(0, 6))
@@ -133,6 +140,8 @@ def run_fitfile(case, ctx):
     from sedfitter.source import Source
     labels = {'mode_' + case['mode'], 'format_' + case['format'], 'sel_' + case['selector'][0], 'big_grid' if case.get('big_grid') else 'small_grid',
               'convolved' if case['output_convolved'] else 'no_convolved', 'n_data_min=%d' % case['n_data_min']}
+    if len(set(s['name'] for s in case['lines'])) < len(case['lines']):
+        labels.add('lines_sharing_a_name')
     with ctx.tempdir() as d:
         mdir, dr = build(case, d)
         output = os.path.join(d, 'output.fitinfo')
@@ -332,5 +341,5 @@ MACHINES = {'postproc': PostprocMachine}
 
 
 def plan(ctx):
-    ctx.run_given('fitfile', fit_cases(), ctx.scale(40, 800), shrink=not ctx.quick)
+    ctx.run_given('fitfile', fit_cases(dup_names=True), ctx.scale(40, 800), shrink=not ctx.quick)
     ctx.run_machine('postproc', ctx.scale(12, 250), 4, shrink=not ctx.quick)
